@@ -550,7 +550,12 @@ def trig(eng, theta):
         if z3.is_true(z3.simplify(uz == -tz)):
             eng.assume(z3.And(c.z == to_z3(c2, "real"), s.z == -to_z3(s2, "real")))
     tab.append((tz, c, s))
+    for fact in TRIG_FACTS:  # further named facts of the real cosine / sine, installed by an extension (pyvc/ext_C12.py)
+        fact(eng, tz, c, s, tab)
     return c, s
+
+
+TRIG_FACTS = []
 
 
 def np_cos(eng, args, kwargs):
